@@ -20,6 +20,49 @@ RECURSIVE Cat(_)
 Cat(ss) == IF ss = <<>> THEN <<>> ELSE Head(ss) \o Cat(Tail(ss))
 
 ---------------------------------------------------------------------------
+(*                          SESSIONS (both parts)                                    *)
+(* The rules of both parts hold on every session the library can serve. A session is *)
+(* described by                                                                      *)
+(*   kind  "c2s" | "s2s" (initiated over TCP), "rc2s" | "rs2s" (received: the peer's  *)
+(*         stream header came first), "ws" (initiated, WebSocket framing: the header  *)
+(*         is an <open/> element of the framing namespace and every stanza names its *)
+(*         own namespace)                                                            *)
+(*   neg   "custom" (a Negotiator of the application that stores the peer's header)   *)
+(*         | "lib" (the library's own negotiator)                                    *)
+(*   hdr   what the peer's stream header names as this side's address: "same" (the   *)
+(*         address given when the session was made) | "other" | "none"               *)
+(*   bind  whether negotiation ended by binding another address (UpdateAddr)         *)
+(* Addresses are symbols: "A" given to the constructor, "H" named by the peer's      *)
+(* header, "B" bound, "X" never the session's; each has a bare and a full form.      *)
+Sess(kind, neg, hdr, bind) == [kind |-> kind, neg |-> neg, hdr |-> hdr, bind |-> bind]
+Received(k) == k \in {"rc2s", "rs2s"}
+SessNS(k) == IF k \in {"s2s", "rs2s"} THEN "server" ELSE "client"    \* the stanza namespace of the stream
+OtherNS(ns) == IF ns = "client" THEN "server" ELSE "client"
+Framing(k) == IF k = "ws" THEN "ws" ELSE "tcp"
+(* the namespace the peer's stream header declares: on the WebSocket framing it is   *)
+(* the framing namespace, not a stanza namespace                                     *)
+HeaderNS(k) == IF Framing(k) = "ws" THEN "framing" ELSE SessNS(k)
+(* the session's own address: the last one it was given *)
+Ctor(s) == IF Received(s.kind) THEN "none" ELSE "A"
+HdrTo(s) == IF s.hdr = "same" THEN Ctor(s) ELSE IF s.hdr = "other" THEN "H" ELSE "none"
+Local(s) == IF s.bind THEN "B" ELSE IF HdrTo(s) # "none" THEN HdrTo(s) ELSE Ctor(s)
+(* an address the session was given earlier but that is not its address (any more);  *)
+(* "X" when there is none                                                            *)
+Was(s) == IF Ctor(s) \notin {"none", Local(s)} THEN Ctor(s)
+          ELSE IF HdrTo(s) \notin {"none", Local(s)} THEN HdrTo(s) ELSE "X"
+(* sessions that exist: they have an address; the library's own negotiator insists   *)
+(* on a header naming the constructor's address, binds on initiated client streams   *)
+(* only, and (this tree) cannot receive a server-to-server stream                    *)
+ValidSess(s) ==
+  /\ Local(s) # "none"
+  /\ (s.hdr = "same" => ~Received(s.kind))
+  /\ (s.kind = "ws" => s.neg = "lib")
+  /\ (s.neg = "lib" => \/ (s.kind \in {"c2s", "s2s", "ws"} /\ s.hdr = "same" /\ (s.bind => s.kind = "c2s"))
+                       \/ (s.kind = "rc2s" /\ s.hdr = "other" /\ ~s.bind))
+AllSess == {s \in {Sess(k, n, h, b) : k \in {"c2s", "s2s", "rc2s", "rs2s", "ws"}, n \in {"custom", "lib"},
+                                     h \in {"same", "other", "none"}, b \in BOOLEAN} : ValidSess(s)}
+
+---------------------------------------------------------------------------
 (*                               PART 1 - C07                                        *)
 (* Every incoming get/set IQ that carries an id is answered exactly once: by the     *)
 (* handler's own reply if it wrote one, otherwise by one service-unavailable error   *)
@@ -29,10 +72,22 @@ Cat(ss) == IF ss = <<>> THEN <<>> ELSE Head(ss) \o Cat(Tail(ss))
 
 (* incoming element: kind "iq" | "msg" | "pres" | "other" (foreign top-level element) *)
 (* type as written ("" = absent), id ("none" = absent), from "none" | "own" (the      *)
-(* session's own bare address) | "peer", payload "none" | "child" | "childtext" |     *)
-(* "iqchild" (a child that is itself named iq and carries the request's id)           *)
-El7(kind, type, id, from, payload) ==
-  [kind |-> kind, type |-> type, id |-> id, from |-> from, payload |-> payload]
+(* session's own bare address) | "ownfull" | "peer" (another entity's full address) | *)
+(* "domain" (a server's address, not the session's own), to "none" | "full" | "bare"  *)
+(* (the session's own address), ns "own" (the stream's stanza namespace) | "other"    *)
+(* (the other stanza namespace: jabber:server on a client stream and vice versa),     *)
+(* payload "none" | "child" | "childtext" | "iqchild" (a child that is itself named   *)
+(* iq and carries the request's id)                                                   *)
+El7(kind, type, id, from, to, ns, payload) ==
+  [kind |-> kind, type |-> type, id |-> id, from |-> from, to |-> to, ns |-> ns, payload |-> payload]
+
+(* how the element looks on a session of kind k: its namespace, and whether it names  *)
+(* that namespace itself (on the WebSocket framing every stanza does; an element of   *)
+(* the other stanza namespace must) or inherits it from the stream header; the rule   *)
+(* of this part is the same on every kind of session                                  *)
+ElemNS(k, e) == IF e.ns = "own" THEN SessNS(k) ELSE OtherNS(SessNS(k))
+Declares(k, e) == Framing(k) = "ws" \/ e.ns = "other"
+HeaderDiffers(k, e) == HeaderNS(k) # ElemNS(k, e)     \* the stream header names another namespace than the stanza
 
 (* an element written by a handler: el "iq" | "message"; ns "def" (the stream's      *)
 (* stanza namespace) | "foreign"; type ("" absent); id ("none" absent); to; nest =   *)
@@ -40,7 +95,8 @@ El7(kind, type, id, from, payload) ==
 WEl(el, ns, type, id, to, nest) == [el |-> el, ns |-> ns, type |-> type, id |-> id, to |-> to, nest |-> nest]
 
 OtherId(id) == IF id = "none" THEN "other" ELSE id \o "x"
-ToOf(e) == IF e.from = "peer" THEN "peer" ELSE "none"
+(* the addressee handlers give their elements: the sender they were shown *)
+ToOf(e) == IF e.from \in {"none", "own"} THEN "none" ELSE e.from
 
 WNames == {"none", "reply", "errreply", "otherid", "get", "set", "kth", "first", "nested",
            "notype", "bogustype", "foreign"}
@@ -76,20 +132,24 @@ C07_Needs(e) == e.kind = "iq" /\ e.type \in {"get", "set"} /\ CarriesId(e)
 C07_Free(e) == e.kind = "iq" /\ ~C07_Needs(e) /\ e.type \notin {"result", "error"}
 
 (* what is on the wire: handler-written elements <<"h", record>>, the session's      *)
-(* default reply <<"su", id, to>>, a stream error <<"serr">>                         *)
+(* default reply <<"su", id, to>>, a stream error <<"serr">>. The default reply is   *)
+(* addressed to the request's sender when it named one - whatever the request's own  *)
+(* addressee, namespace, and the kind of session; a sender equal to the session's    *)
+(* own bare address may have been presented as empty (part 2)                        *)
 HOut(x) == <<"h", x>>
-SUOuts(e) == {<<"su", e.id, t>> : t \in IF e.from = "own" THEN {"none", "own"}
-                                         ELSE IF e.from = "peer" THEN {"peer"} ELSE {"none"}}
+SUOuts(e) == {<<"su", e.id, t>> : t \in IF e.from = "own" THEN {"none", "own"} ELSE {e.from}}
 
 (* Whether the program runs at all. "plain": the handler is given to Serve directly.  *)
 (* "muxunreg": a multiplexer without a handler for the element - nothing of the      *)
-(* program runs. "muxreg": a multiplexer with a handler registered for the element's *)
-(* payload; for an iq WITHOUT payload this property does not say whether the         *)
-(* multiplexer hands it to the type's wildcard handler (C14 territory): both.        *)
+(* program runs. "muxreg": a multiplexer (made for the stream's stanza namespace)    *)
+(* with a handler registered for the element's payload; for an iq WITHOUT payload,   *)
+(* and for a stanza qualified by the OTHER stanza namespace, this property does not  *)
+(* say whether the multiplexer hands it to the handler (C14 territory): both.        *)
 Modes == {"plain", "muxreg", "muxunreg"}
 RanChoices(e, mode) ==
   IF mode = "plain" THEN {TRUE} ELSE IF mode = "muxunreg" THEN {FALSE}
-  ELSE IF e.kind = "iq" /\ e.payload = "none" THEN {TRUE, FALSE} ELSE {TRUE}
+  ELSE IF e.kind = "iq" /\ e.payload = "none" THEN {TRUE, FALSE}
+  ELSE IF e.kind # "other" /\ e.ns = "other" THEN {TRUE, FALSE} ELSE {TRUE}
 HWrites(e, p, ran) == IF ran THEN Writes(p.w, e) ELSE <<>>
 HRet(p, ran) == IF ran THEN p.ret ELSE "ok"
 
@@ -105,7 +165,12 @@ RepliesR(e, p, ran) ==
             ELSE {base}
   IN IF HRet(p, ran) = "ok" THEN ok
      ELSE {Append(w, <<"serr">>) : w \in ok \cup {base}}    \* terminated by a stream error
+(* a stanza qualified by a stanza namespace that the stream header did not declare   *)
+(* may also be refused outright: the stream is terminated with a stream error before *)
+(* anything is handled                                                               *)
+MayRefuse(e) == e.kind # "other" /\ e.ns = "other"
 C07_Replies(e, p, mode) == UNION {RepliesR(e, p, ran) : ran \in RanChoices(e, mode)}
+                           \cup (IF MayRefuse(e) THEN {<< <<"serr">> >>} ELSE {})
 
 Ends(w) == w # <<>> /\ w[Len(w)] = <<"serr">>
 
@@ -134,7 +199,7 @@ VARIABLES c7mode,   \* "plain" | "muxreg" | "muxunreg"
 c7vars == <<c7mode, c7in, c7done, c7parts, c7cur, c7pc, c7k, c7ran, c7wrote, c7out>>
 C7Wire == Cat(c7parts) \o c7out
 
-NoItem == [e |-> El7("none", "", "none", "none", "none"), p |-> Prog7("none", "none", "ok")]
+NoItem == [e |-> El7("none", "", "none", "none", "none", "own", "none"), p |-> Prog7("none", "none", "ok")]
 
 C07_Init ==
   /\ c7mode \in C7Modes /\ c7in \in UNION {[1..n -> C7Items] : n \in 1..C7Len}
@@ -147,6 +212,11 @@ C07_Take ==
   /\ c7cur' = Head(c7in) /\ c7in' = Tail(c7in) /\ c7pc' = "handler" /\ c7k' = 1 /\ c7wrote' = FALSE
   /\ c7out' = <<>> /\ c7ran' \in RanChoices(Head(c7in).e, c7mode)
   /\ UNCHANGED <<c7mode, c7done, c7parts>>
+C07_Refuse ==
+  /\ c7pc = "idle" /\ c7in # <<>> /\ MayRefuse(Head(c7in).e)
+  /\ c7cur' = Head(c7in) /\ c7in' = Tail(c7in) /\ c7pc' = "failed"
+  /\ c7parts' = Append(c7parts, << <<"serr">> >>) /\ c7done' = Append(c7done, Head(c7in))
+  /\ UNCHANGED <<c7mode, c7k, c7ran, c7wrote, c7out>>
 C07_CloseTag ==
   /\ c7pc = "idle" /\ c7in = <<>> /\ c7pc' = "closed"
   /\ UNCHANGED <<c7mode, c7in, c7done, c7parts, c7cur, c7k, c7ran, c7wrote, c7out>>
@@ -187,7 +257,7 @@ C07_StreamError ==
         /\ \E su \in SUOuts(c7cur.e) : Finish(c7out \o <<su, <<"serr">> >>, "failed")
      \/ Finish(Append(c7out, <<"serr">>), "failed")
 
-C07_Next == C07_Take \/ C07_CloseTag \/ C07_Write \/ C07_Return \/ C07_Default \/ C07_StreamError
+C07_Next == C07_Take \/ C07_Refuse \/ C07_CloseTag \/ C07_Write \/ C07_Return \/ C07_Default \/ C07_StreamError
 
 (* --- properties of part 1 --- *)
 IsSU(o) == o[1] = "su"
@@ -213,9 +283,16 @@ C07_NoReplyToReply ==
   \A i \in 1..Len(c7done) :
     LET e == c7done[i].e
     IN ~C07_Needs(e) /\ ~C07_Free(e) => Idx(c7parts[i], IsSU) = {}
-(* the default reply carries the request's id and goes to its sender *)
+(* the default reply carries the request's id and goes to its sender: to the address  *)
+(* the request named as from (never to the request's own addressee), to nobody only   *)
+(* when the request named no sender or the session's own bare address                 *)
 C07_Addressed ==
-  \A i \in 1..Len(c7done) : \A a \in Idx(c7parts[i], IsSU) : c7parts[i][a] \in SUOuts(c7done[i].e)
+  \A i \in 1..Len(c7done) : \A a \in Idx(c7parts[i], IsSU) :
+    LET e == c7done[i].e  su == c7parts[i][a]
+    IN /\ su \in SUOuts(e)
+       /\ su[2] = e.id
+       /\ (e.from \notin {"none", "own"} => su[3] = e.from)
+       /\ (e.from = "none" => su[3] = "none")
 (* the reply-seen flag means: the handler wrote THE reply *)
 C07_FlagExact ==
   c7pc \in {"handler", "after", "fail"} =>
@@ -243,10 +320,15 @@ C07_IsReplies ==
 ConstructKinds == {"comment", "pi", "directive", "serr", "restart", "otherstream"}
 IsStop(tok) == tok[1] \in {"c", "bad"}
 
-(* items of the input *)
+(* items of the input; from "none" | "peer" | "own" (the bare form of the session's    *)
+(* own address) | "ownfull" | "was" (the bare form of an address that is not the      *)
+(* session's (any more))                                                              *)
 Elem(kind, from, body) == [k |-> "el", kind |-> kind, from |-> from, body |-> body]  \* kind "stanza" | "foreign"
-Top(k) == [k |-> k]           \* "ws" "text" "comment" "pi" "directive" "restart" "otherstream" "close" "eof" "badtop"
+(* "ws" "text" "comment" "pi" "directive" "restart" "otherstream" "close" "eof" "badtop" arrive from the peer;  *)
+(* "lclose" is a step of the LOCAL side between two arrivals: it calls Close() (its output stream ends)      *)
+Top(k) == [k |-> k]
 SErr(cond) == [k |-> "serr", cond |-> cond]
+Arrives(it) == it.k # "lclose"
 
 Window(el) == Append(el.body, <<"E">>)
 StopIdx(el) == {i \in 1..Len(el.body) : IsStop(el.body[i])}
@@ -255,21 +337,31 @@ FirstStop(el) == CHOOSE i \in StopIdx(el) : \A j \in StopIdx(el) : i <= j
 (* the exact token sequence a handler can obtain before any error *)
 C08_Pre(el) == IF HasStop(el) THEN SubSeq(el.body, 1, FirstStop(el) - 1) ELSE Window(el)
 
-(* from as presented to the handler: "own" (the session's bare address) on a stanza  *)
-(* becomes empty; on other elements the property says nothing ("any")                *)
-C08_From(el) == IF el.kind = "stanza" THEN (IF el.from = "own" THEN "empty" ELSE el.from)
-                ELSE (IF el.from = "own" THEN "any" ELSE el.from)
+(* the address a from symbol stands for on session s: <<form, address symbol>> *)
+FromAddr(from, s) == CASE from = "own"     -> <<"bare", Local(s)>>
+                       [] from = "ownfull" -> <<"full", Local(s)>>
+                       [] from = "was"     -> <<"bare", Was(s)>>
+                       [] OTHER            -> <<from, "-">>
+(* from as presented to the handler: equal to the bare form of the address the       *)
+(* session has NOW (however it got it: constructor, peer's header, binding), on a    *)
+(* stanza, it becomes empty; anything else is presented as sent; on other elements   *)
+(* the property says nothing about the own address ("any")                           *)
+C08_From(el, s) == IF FromAddr(el.from, s) = <<"bare", Local(s)>>
+                   THEN (IF el.kind = "stanza" THEN "empty" ELSE "any") ELSE el.from
 
-Terminates(it) == it.k \notin {"el", "ws"} \/ (it.k = "el" /\ HasStop(it))
+(* items that end the session. The local side's Close() is not one of them, and the  *)
+(* rules below do not depend on whether it happened: Serve continues until the peer  *)
+(* ends the stream                                                                   *)
+Terminates(it) == it.k \notin {"el", "ws", "lclose"} \/ (it.k = "el" /\ HasStop(it))
 RECURSIVE UpToFirst(_)
 UpToFirst(items) ==     \* the items that are looked at: up to and including the first terminating one
   IF items = <<>> THEN <<>>
   ELSE IF Terminates(items[1]) THEN <<items[1]>> ELSE <<items[1]>> \o UpToFirst(Tail(items))
 
 (* the handler invocations for an input *)
-C08_Invocations(items) ==
+C08_Invocations(items, s) ==
   LET seen == SelectSeq(UpToFirst(items), LAMBDA it : it.k = "el")
-  IN [i \in 1..Len(seen) |-> [kind |-> seen[i].kind, from |-> C08_From(seen[i]),
+  IN [i \in 1..Len(seen) |-> [kind |-> seen[i].kind, from |-> C08_From(seen[i], s),
                                pre |-> C08_Pre(seen[i]), stop |-> HasStop(seen[i])]]
 
 (* Serve's outcome class: <<"nil">>, <<"serr", cond>>, <<"err">>. Where the statement is     *)
@@ -302,9 +394,12 @@ C08_Events(inv, p) ==
      ELSE [ev |-> head \o [i \in 1..(p.n - m) |-> <<"eof">>], free |-> 0]
 
 CONSTANTS C8Inputs,   \* set of inputs (sequences of items) the design check feeds
-          C8Progs     \* set of program cycles (non-empty sequences of programs)
+          C8Progs,    \* set of program cycles (non-empty sequences of programs)
+          C8Sess      \* set of sessions
 
-VARIABLES c8in,     \* the whole input (constant during a run)
+VARIABLES c8sess,   \* the session (constant during a run)
+          c8oclosed,\* the local side has closed its output stream
+          c8in,     \* the whole input (constant during a run)
           c8progs,  \* the program cycle
           c8i,      \* index of the next top-level item
           c8pc,     \* "top" | "handler" | "skip" | "done"
@@ -313,9 +408,10 @@ VARIABLES c8in,     \* the whole input (constant during a run)
           c8stuck,  \* a stream-level construct / malformation was met inside the element
           c8log,    \* invocations: [kind, from, ev (what the handler observed), item (index)]
           c8out     \* Serve's outcome class, <<"none">> while running
-c8vars == <<c8in, c8progs, c8i, c8pc, c8pos, c8left, c8stuck, c8log, c8out>>
+c8vars == <<c8sess, c8oclosed, c8in, c8progs, c8i, c8pc, c8pos, c8left, c8stuck, c8log, c8out>>
 
 C08_Init ==
+  /\ c8sess \in C8Sess /\ c8oclosed = FALSE
   /\ c8in \in C8Inputs /\ c8progs \in C8Progs
   /\ c8i = 1 /\ c8pc = "top" /\ c8pos = 0 /\ c8left = 0 /\ c8stuck = FALSE /\ c8log = <<>> /\ c8out = <<"none">>
 
@@ -328,20 +424,23 @@ C08_TopToken ==
   /\ c8pc = "top"
   /\ IF c8i > Len(c8in) THEN      \* the transport ends without a closing tag
        /\ \E o \in {<<"nil">>, <<"err">>} : EndWith(o)
-       /\ UNCHANGED <<c8in, c8progs, c8i, c8pos, c8left, c8stuck, c8log>>
+       /\ UNCHANGED <<c8sess, c8oclosed, c8in, c8progs, c8i, c8pos, c8left, c8stuck, c8log>>
      ELSE LET it == c8in[c8i] IN
        CASE it.k = "ws" ->       \* keep-alive
-              /\ c8i' = c8i + 1 /\ UNCHANGED <<c8in, c8progs, c8pc, c8pos, c8left, c8stuck, c8log, c8out>>
+              /\ c8i' = c8i + 1 /\ UNCHANGED <<c8sess, c8oclosed, c8in, c8progs, c8pc, c8pos, c8left, c8stuck, c8log, c8out>>
+         [] it.k = "lclose" ->   \* not a token: the local side calls Close(); Serve carries on reading
+              /\ c8oclosed' = TRUE /\ c8i' = c8i + 1
+              /\ UNCHANGED <<c8sess, c8in, c8progs, c8pc, c8pos, c8left, c8stuck, c8log, c8out>>
          [] it.k = "el" ->       \* a top-level element: the handler is invoked with its start tag
-              /\ c8log' = Append(c8log, [kind |-> it.kind, from |-> C08_From(it), ev |-> <<>>, item |-> c8i])
+              /\ c8log' = Append(c8log, [kind |-> it.kind, from |-> C08_From(it, c8sess), ev |-> <<>>, item |-> c8i])
               /\ c8pc' = "handler" /\ c8pos' = 0 /\ c8stuck' = FALSE
               /\ c8left' = c8progs[(Len(c8log) % Len(c8progs)) + 1].n
-              /\ UNCHANGED <<c8in, c8progs, c8i, c8out>>
-         [] it.k = "close" -> EndWith(<<"nil">>) /\ UNCHANGED <<c8in, c8progs, c8i, c8pos, c8left, c8stuck, c8log>>
+              /\ UNCHANGED <<c8sess, c8oclosed, c8in, c8progs, c8i, c8out>>
+         [] it.k = "close" -> EndWith(<<"nil">>) /\ UNCHANGED <<c8sess, c8oclosed, c8in, c8progs, c8i, c8pos, c8left, c8stuck, c8log>>
          [] it.k = "eof" -> (\E o \in {<<"nil">>, <<"err">>} : EndWith(o))
-                            /\ UNCHANGED <<c8in, c8progs, c8i, c8pos, c8left, c8stuck, c8log>>
-         [] it.k = "serr" -> EndWith(<<"serr", it.cond>>) /\ UNCHANGED <<c8in, c8progs, c8i, c8pos, c8left, c8stuck, c8log>>
-         [] OTHER -> EndWith(<<"err">>) /\ UNCHANGED <<c8in, c8progs, c8i, c8pos, c8left, c8stuck, c8log>>
+                            /\ UNCHANGED <<c8sess, c8oclosed, c8in, c8progs, c8i, c8pos, c8left, c8stuck, c8log>>
+         [] it.k = "serr" -> EndWith(<<"serr", it.cond>>) /\ UNCHANGED <<c8sess, c8oclosed, c8in, c8progs, c8i, c8pos, c8left, c8stuck, c8log>>
+         [] OTHER -> EndWith(<<"err">>) /\ UNCHANGED <<c8sess, c8oclosed, c8in, c8progs, c8i, c8pos, c8left, c8stuck, c8log>>
 
 Observe(e) == c8log' = [c8log EXCEPT ![Len(c8log)].ev = Append(@, e)]
 
@@ -356,12 +455,12 @@ C08_HandlerRead ==
      ELSE IF IsStop(w[c8pos + 1]) THEN
         /\ Observe(<<"err">>) /\ c8stuck' = TRUE /\ c8pos' = c8pos + 1
      ELSE Observe(w[c8pos + 1]) /\ c8pos' = c8pos + 1 /\ UNCHANGED c8stuck
-  /\ UNCHANGED <<c8in, c8progs, c8i, c8pc, c8out>>
+  /\ UNCHANGED <<c8sess, c8oclosed, c8in, c8progs, c8i, c8pc, c8out>>
 
 (* a handler in "stop" mode gives up reading at the first error *)
 C08_HandlerStops ==
   /\ c8pc = "handler" /\ c8left > 0 /\ c8stuck /\ CurProg.mode = "stop"
-  /\ c8left' = 0 /\ UNCHANGED <<c8in, c8progs, c8i, c8pc, c8pos, c8stuck, c8log, c8out>>
+  /\ c8left' = 0 /\ UNCHANGED <<c8sess, c8oclosed, c8in, c8progs, c8i, c8pc, c8pos, c8stuck, c8log, c8out>>
 
 (* the handler returns nil: a construct it met ends the session; otherwise the rest  *)
 (* of the element is skipped                                                         *)
@@ -370,19 +469,19 @@ C08_HandlerReturn ==
   /\ IF c8stuck THEN
        /\ \E o \in (IF CurEl.body[FirstStop(CurEl)] = <<"c", "serr">> THEN {<<"err">>, <<"serr", "nested">>} ELSE {<<"err">>}) :
             EndWith(o)
-       /\ UNCHANGED <<c8in, c8progs, c8i, c8pos, c8left, c8stuck, c8log>>
-     ELSE c8pc' = "skip" /\ UNCHANGED <<c8in, c8progs, c8i, c8pos, c8left, c8stuck, c8log, c8out>>
+       /\ UNCHANGED <<c8sess, c8oclosed, c8in, c8progs, c8i, c8pos, c8left, c8stuck, c8log>>
+     ELSE c8pc' = "skip" /\ UNCHANGED <<c8sess, c8oclosed, c8in, c8progs, c8i, c8pos, c8left, c8stuck, c8log, c8out>>
 
 (* advance to the end of the element *)
 C08_Skip ==
   /\ c8pc = "skip"
   /\ LET w == Window(CurEl) IN
      IF c8pos >= Len(w) THEN
-        /\ c8pc' = "top" /\ c8i' = c8i + 1 /\ UNCHANGED <<c8in, c8progs, c8pos, c8left, c8stuck, c8log, c8out>>
+        /\ c8pc' = "top" /\ c8i' = c8i + 1 /\ UNCHANGED <<c8sess, c8oclosed, c8in, c8progs, c8pos, c8left, c8stuck, c8log, c8out>>
      ELSE IF IsStop(w[c8pos + 1]) THEN
         /\ \E o \in (IF w[c8pos + 1] = <<"c", "serr">> THEN {<<"err">>, <<"serr", "nested">>} ELSE {<<"err">>}) : EndWith(o)
-        /\ UNCHANGED <<c8in, c8progs, c8i, c8pos, c8left, c8stuck, c8log>>
-     ELSE c8pos' = c8pos + 1 /\ UNCHANGED <<c8in, c8progs, c8i, c8pc, c8left, c8stuck, c8log, c8out>>
+        /\ UNCHANGED <<c8sess, c8oclosed, c8in, c8progs, c8i, c8pos, c8left, c8stuck, c8log>>
+     ELSE c8pos' = c8pos + 1 /\ UNCHANGED <<c8sess, c8oclosed, c8in, c8progs, c8i, c8pc, c8left, c8stuck, c8log, c8out>>
 
 C08_Next == C08_TopToken \/ C08_HandlerRead \/ C08_HandlerStops \/ C08_HandlerReturn \/ C08_Skip
 
@@ -410,7 +509,9 @@ C08_NextStartsAtNext ==
 C08_FromNormalised ==
   \A i \in 1..Len(c8log) :
     LET el == c8in[c8log[i].item]
-    IN el.kind = "stanza" /\ el.from = "own" => c8log[i].from = "empty"
+    IN el.kind = "stanza" =>
+         /\ (FromAddr(el.from, c8sess) = <<"bare", Local(c8sess)>> => c8log[i].from = "empty")
+         /\ (FromAddr(el.from, c8sess) # <<"bare", Local(c8sess)>> => c8log[i].from = el.from)
 (* stream-level input never reaches a handler: no construct is ever observed as a    *)
 (* token, nothing is delivered after the first terminating item, and such an item    *)
 (* ends the session with an error                                                    *)
@@ -420,11 +521,20 @@ C08_StreamLevelNeverDelivered ==
   /\ (c8pc = "done" /\ c8i <= Len(c8in) /\ c8in[c8i].k \notin {"close", "eof"} => c8out # <<"nil">>)
 C08_CloseTagEndsNil ==
   c8pc = "done" /\ c8i <= Len(c8in) /\ c8in[c8i].k = "close" => c8out = <<"nil">>
+(* the local side's Close() changes nothing of the above: the handler invocations and *)
+(* Serve's outcome are those of the same arrivals without it, whether the output      *)
+(* stream was open or closed when the terminating item arrived                        *)
+C08_LocalCloseIrrelevant ==
+  c8pc = "done" =>
+    LET arr == SelectSeq(c8in, Arrives) IN
+    /\ c8out \in C08_Outcomes(arr)
+    /\ Len(c8log) = Len(C08_Invocations(arr, c8sess))
+    /\ (c8oclosed /\ c8i <= Len(c8in) /\ c8in[c8i].k \notin {"close", "eof"} => c8out # <<"nil">>)
 (* the machine agrees with the reference functions the vectors are made from *)
 C08_IsReference ==
   c8pc = "done" =>
     /\ c8out \in C08_Outcomes(c8in)
-    /\ LET inv == C08_Invocations(c8in) IN
+    /\ LET inv == C08_Invocations(c8in, c8sess) IN
        /\ Len(c8log) = Len(inv)
        /\ \A i \in 1..Len(inv) :
             LET p == c8progs[((i - 1) % Len(c8progs)) + 1]
@@ -436,7 +546,7 @@ C08_IsReference ==
 (* --- the two parts as separate specifications over one set of variables --- *)
 C07_Idle == /\ c7mode = "plain" /\ c7in = <<>> /\ c7done = <<>> /\ c7parts = <<>> /\ c7cur = NoItem /\ c7pc = "off"
             /\ c7k = 1 /\ c7ran = TRUE /\ c7wrote = FALSE /\ c7out = <<>>
-C08_Idle == /\ c8in = <<>> /\ c8progs = <<>> /\ c8i = 1 /\ c8pc = "off" /\ c8pos = 0 /\ c8left = 0
+C08_Idle == /\ c8sess = Sess("c2s", "custom", "same", FALSE) /\ c8oclosed = FALSE /\ c8in = <<>> /\ c8progs = <<>> /\ c8i = 1 /\ c8pc = "off" /\ c8pos = 0 /\ c8left = 0
             /\ c8stuck = FALSE /\ c8log = <<>> /\ c8out = <<"none">>
 Init7 == C07_Init /\ C08_Idle
 Next7 == C07_Next /\ UNCHANGED c8vars
